@@ -32,6 +32,7 @@ type query struct {
 	text string // the query line
 	want string // expected answer ("" = handled by `on`)
 	ctx  string // description for replay files
+	ctxFn func() string // computed only when the answer is wrong
 	hdr  string // the fn/blk/val records the query refers to
 	on   func(got string)
 }
